@@ -48,7 +48,11 @@ class Gen:
             mode = 'copy'
         return {'ref': [mode, k]}
 
-    def arg_tree(self, depth=2, container=False):
+    def arg_tree(self, depth=2, container=False, empties=0.0):
+        # an EMPTY literal handed directly to set / contextmerge / default must still be a fresh
+        # object per run (nothing to format is no reason not to copy); it is grown in place later
+        if empties and self.rng.random() < empties:
+            return self.rng.choice([{'l': []}, {'d': []}])
         r = self.rng.random()
         if depth == 0 or (not container and r < 0.25):
             return self.rng.randint(0, 9)
@@ -139,7 +143,7 @@ class Gen:
         if kind == 'set':
             st['pairs'] = []
             for k in rng.sample(DATA_KEYS, rng.randint(1, 2)):
-                t = self.arg_tree(2)
+                t = self.arg_tree(2, empties=0.2)
                 st['pairs'].append([k, t])
                 bound(k, self.taints(t))
                 self.types[k] = self.type_of(t)
@@ -158,7 +162,8 @@ class Gen:
             for k in ([self.target(in_keys, rng.choice(['l', 'd', 'd']))] + rng.sample(DATA_KEYS, rng.randint(0, 1))):
                 if any(k == kk for kk, _ in st['pairs']) or (self.clean and k in self.tainted):
                     continue
-                t = self.arg_tree(2, container=rng.random() < 0.8) if not self.clean else self.clean_tree(2, rng.random() < 0.8)
+                t = self.arg_tree(2, container=rng.random() < 0.8, empties=0.15) if not self.clean \
+                    else self.clean_tree(2, rng.random() < 0.8)
                 if rng.random() < 0.97:
                     t = no_self(t, k)
                 st['pairs'].append([k, t])
